@@ -80,7 +80,7 @@ CLAIMS = {
     'C03': ('translation_validation',
             'translation validation of the real compiler: TLC evaluates the semantics of the *input* lines (TzSem.tla, validated by zic on every source) and judges the run-length traces of every emitted zone interpreted by the matching real processor (ZoneSpecifier for the Python tables; the generated C++ tables compiled and read by Basic/ExtendedZoneProcessor); accounting of zones/links/filter steps',
             'Sources: the vendored tzdata 2025b release, the source recorded in the shipped tables, seeded generated sources over the documented grammar (zone by zone accepted by zic), seeded single-field mutations. For each source x scope {basic, extended} the real Extractor -> Transformer -> generators run in-process; every input zone and link must be emitted or listed as removed with a reason, every filter step must conserve its input, links must point to emitted zones; the Python tables are interpreted by ZoneSpecifier and the generated C++ tables are compiled into the sweep driver and interpreted by the real processors; each emitted zone\'s trace over [2000, 2050) (bisected to the second) is judged by TLC against TzSem.tla on the input lines.',
-            'zic (glibc 2.36) validates the specification on every source (a disagreement is a machinery failure); generated sources are restricted to constructs zic can also express after 2037; zones carrying a truncation note are excluded from the semantic comparison; a generated source the compiler refuses is "not accepted". One known finding (BasicZoneProcessor, era with named rules beginning at a year boundary).',
+            'zic (glibc 2.36) validates the specification on every source (a disagreement is a machinery failure on the release, the recorded lines and the fixed sources; in a generated or mutated source such a zone is not judged and noted, above 10 % of the zones a machinery failure again); generated sources are restricted to constructs zic can also express after 2037; zones carrying a truncation note are judged against the source with the documented truncations applied; a generated source the compiler refuses is "not accepted". Three known findings on constructs no shipped or 2025b zone has (see known_findings.json).',
             '§4.3, §4.10, §6-C03'),
     'C04': ('model_checking',
             'both implementations validated against TzSem.tla by TLC (trace validation) and compared with each other: the shipped tables decoded through the C++ brokers into the Python data model, ZoneSpecifier (8 option combinations) vs ExtendedZoneProcessor sweeps; local date-time selection judged by TLC (Allowed)',
